@@ -132,7 +132,7 @@ def class_items():
 # the construction table, by introspection of live objects
 # ------------------------------------------------------------------------------------------------
 PROBE_SITE = {'apps': [
-    {'script_name': '', 'toolbox': None, 'wsgi_tag': 'app0', 'cpconfig': {},
+    {'script_name': '', 'toolbox': None, 'wsgi_tag': 'app0', 'cpconfig': {}, 'mw': True,
      'config': {'/': [['hook', 'before_handler', 'cb0', 50, False, 'h0'], ['errpage', 404, 'ep0']],
                 '/a': [['tool', 'c10t1', {'which': 'proc0', 'ct': 'application/x-c10-0'}], ['resphdr', 'X-Cfg-0', 'c0']],
                 '/b': [['tool', 'c10t3', {'name': 'X-C10-T3-0', 'value': 'v0'}], ['reqattr', 'c10_cfg_0', 'a0']]}},
@@ -233,14 +233,48 @@ def default_table():
     return out
 
 
-def lean_tables(verdict, dflt, thread_local, release_clears):
+APP_SLOTS = ['config', 'namespaces', 'toolboxes', 'pipeline', 'wsgiConfig', 'log']
+
+
+def app_table():
+    """Collection attributes of freshly constructed Applications: fresh object or class-level object?"""
+    from cherrypy import _cptree, _cpwsgi
+
+    class Root(object):
+        pass
+    a1, a2 = _cptree.Application(Root(), '/c10p1'), _cptree.Application(Root(), '/c10p2')
+    A, W = _cptree.Application, _cpwsgi.CPWSGIApp
+    get = {'config': (lambda a: a.config, A.config, 'appConfig'),
+           'namespaces': (lambda a: a.namespaces, A.namespaces, 'appNamespaces'),
+           'toolboxes': (lambda a: a.toolboxes, A.toolboxes, 'appToolboxes'),
+           'pipeline': (lambda a: a.wsgiapp.pipeline, W.pipeline, 'wsgiPipeline'),
+           'wsgiConfig': (lambda a: a.wsgiapp.config, W.config, 'wsgiConfig'),
+           'log': (lambda a: a.log, A.log, None)}
+    out = {}
+    for s in APP_SLOTS:
+        f, cls, cell = get[s]
+        o1, o2 = f(a1), f(a2)
+        if cls is not None and (o1 is cls or o2 is cls):
+            out[s] = ('aliasClass', cell or 'other')
+        elif o1 is o2:
+            out[s] = ('aliasClass', 'other')
+        else:
+            copy = None
+            if cell and cls and len(cls) and all(k in o1 for k in (cls if isinstance(cls, dict) else [])) \
+                    and (isinstance(cls, dict) or list(o1[:len(cls)]) == list(cls)):
+                copy = cell
+            out[s] = ('fresh', copy)
+    return out
+
+
+def lean_tables(verdict, dflt, thread_local, release_clears, apps=None):
     def src(v):
         if v[0] == 'fresh':
             return '.fresh none' if v[1] is None else '.fresh (some .%s)' % v[1]
         if v[0] == 'aliasSlot':
             return '.aliasSlot .%s' % v[1]
         return '.aliasClass .%s' % v[1]
-    lines = ['import CpModel.Isolation',
+    lines = ['import CpModel.Isolation', 'import CpModel.IsolationApp',
              '/-! GENERATED by harness/c10_model.py from live request objects of the code under test (created through',
              '    the real Application.get_serving / Request.run on probe paths, sequentially and overlapped on three',
              '    threads): for every per-request collection attribute, whether it is a fresh object, IS a class-level',
@@ -257,7 +291,10 @@ def lean_tables(verdict, dflt, thread_local, release_clears):
         lines.append('  | _ => none')
     lines += ['', 'def lifecycle : Lifecycle := { threadLocal := %s, releaseClears := %s }'
               % ('true' if thread_local else 'false', 'true' if release_clears else 'false'),
-              '', 'end CpModel.Gen.C10', '']
+              '', '/-- Collection attributes of a new Application / its CPWSGIApp. -/', 'def appTable : AppTable']
+    for s_ in APP_SLOTS:
+        lines.append('  | .%s => %s' % (s_, src(apps[s_])))
+    lines += ['', 'end CpModel.Gen.C10', '']
     return '\n'.join(lines)
 
 
